@@ -6,14 +6,17 @@ import nacl.bindings as nb
 
 from ..prng import Rng
 from ..seams import F, T, reset_world
+from ..seams import LIB_ERRORS
 from ..core import real
 from ..oracle import (L, ed_verify, sig_message, base_mult, point_add, pubkey_of_seed,
                       scalar_to_int, int_to_scalar)
 
 PID = 'C17'
-ISOLATE = False
+ISOLATE = True      # one forked process per run: nothing a run does to process-global
+                    # state can reach another run, so every run replays on its own
 RUNS = {'quick': 30000, 'thorough': 500000}
 STEP_KEYS = ['steps']
+BATCH = 16           # runs per forked process (see core.execute_seq)
 COMPONENTS = {
     'real': ['OP_MAKE_ADAPTER_SIG_PUBLIC', 'OP_MAKE_ADAPTER_SIG_PRIVATE', 'OP_CHECK_ADAPTER_SIG',
              'OP_DECRYPT_ADAPTER_SIG', 'make_adapter_locks_pub', 'make_adapter_locks_prv',
@@ -262,7 +265,7 @@ def run_check(e, R, sa, Xv, Tv, mv, sfv, prefix=False):
             # two-script check script for B's standalone validation
             s1, _ = T.make_adapter_locks_pub(Xv, Tv, e.flags)
         return F.run_auth_scripts([w, s1], dict(sfv)) is True
-    except Exception:
+    except LIB_ERRORS:
         return False
 
 
@@ -281,7 +284,7 @@ def run_decrypt(e, R, sa, scalar):
             s, RT = st.get(), st.get()
             return RT + s
         return T.decrypt_adapter(w, scalar)
-    except Exception:
+    except LIB_ERRORS:
         return None
 
 
@@ -369,7 +372,7 @@ def execute(plan, run):
                 continue
             try:
                 R, sa = build_adapter(e, e.T_at_A)
-            except Exception as exc:
+            except LIB_ERRORS as exc:
                 from ..core import RealCodeRaised
                 if isinstance(exc, RealCodeRaised) and e.T_at_A != e.T:
                     # a corrupted T may be an invalid point: A legitimately refuses
@@ -490,7 +493,7 @@ def execute(plan, run):
             want = None
             try:
                 want = point_add(R, e.T) + int_to_scalar(scalar_to_int(sa) + e.t_eff)
-            except Exception:
+            except LIB_ERRORS:
                 pass
             run.check('V4_decryption_value', sig is not None and sig == want,
                       'C17/%s/decrypt/not_R_plus_T_and_sa_plus_t' % e.v, step=i,
@@ -543,7 +546,7 @@ def execute(plan, run):
                 elif what == 'RT_with_sa':
                     try:
                         cand = point_add(R, e.T) + sa
-                    except Exception:
+                    except LIB_ERRORS:
                         continue
                 else:
                     sc = st.get('scalar')
@@ -578,7 +581,7 @@ def execute(plan, run):
             ok = False
             try:
                 ok = base_mult(rec) == e.T
-            except Exception:
+            except LIB_ERRORS:
                 pass
             run.probe('extract')
             run.check('V5_extraction', ok and scalar_to_int(rec) % L == e.t_eff,
